@@ -4,6 +4,7 @@ import (
 	"fmt"
 	"go/token"
 	"go/types"
+	"strings"
 
 	"golang.org/x/tools/go/ssa"
 )
@@ -17,6 +18,8 @@ func init() {
 	reg("C16", "C16.R1", "E3", "in-memory limiter state only inside lock()/unlock(); add before get, same indices; verdict value <= limit", 8, ruleLimiterRegion)
 	reg("C16", "C16.R2", "E3+E6", "limiter map under its mutex; key built from rule part and throttle key", 4, ruleLimiterMap)
 	reg("C16", "C16.R3", "E2", "first matching rule decides; no rule means allowed", 1, ruleFirstMatchingRule)
+	reg("C16", "C16.R5", "E6", "the bucket window follows the wall clock only; out-of-window event times count in the newest bucket", 2, ruleWindowFollowsClock)
+	reg("C16", "C16.R6", "E6", "rule key prefixes are distinct: position for configured rules, their count for the default rule", 2, ruleRuleKeysDistinct)
 	reg("C16", "C16.R4", "E1", "a ring of reference rows is only rotated: rows never duplicated, copied over or handed out", 1, ruleRingRows)
 }
 
@@ -535,4 +538,108 @@ func returnsFreshMake(f *ssa.Function) bool {
 		}
 	}
 	return true
+}
+
+// ruleWindowFollowsClock: the ring is rotated by the wall clock only. An event's own time chooses
+// the bucket inside the window (out-of-window times go to the newest bucket); it never moves the
+// window, otherwise one event stamped in the future empties the current buckets and then blocks
+// the key until the clock catches up.
+func ruleWindowFollowsClock(c *Ctx, r *Rule) {
+	n := 0
+	for _, fn := range c.ModFuncs {
+		if c.pkgOf(fn) != "plugin/action/throttle" || isRedisFn(fn) {
+			continue
+		}
+		for _, ci := range callsIn(fn) {
+			cc := ci.Common()
+			if !cc.IsInvoke() || cc.Method.Name() != "rebuild" || len(cc.Args) != 2 {
+				continue
+			}
+			n++
+			r.Inst(1)
+			okClock := false
+			desc := c.path(cc.Args[0])
+			if call, ok := cc.Args[0].(*ssa.Call); ok && call.Call.StaticCallee() == nil && !call.Call.IsInvoke() {
+				if _, f, _, isF := loadedField(call.Call.Value); isF && strings.Contains(strings.ToLower(f), "now") {
+					okClock = true
+				}
+			}
+			r.Ob(okClock, fmt.Sprintf("%s|rebuild#%d|current-time-is-the-clock", c.fnName(fn), n), ci.Pos(), "the 'current time' that rotates the bucket ring is read from the limiter's clock, never derived from the event's time: "+desc)
+		}
+	}
+	r.Ob(n >= 1, "plugin/action/throttle|rebuild-sites", token.NoPos, "the limiter rebuilds its buckets before counting")
+	// out-of-window event times are mapped to the newest bucket
+	rb := c.Func("plugin/action/throttle", "rebuildBuckets")
+	if rb == nil {
+		r.Unresolved("throttle.rebuildBuckets")
+		return
+	}
+	r.Inst(1)
+	clamp := false
+	for _, ret := range returnsOf(rb) {
+		phi, ok := retResults(ret)[0].(*ssa.Phi)
+		if !ok {
+			continue
+		}
+		for _, e := range phi.Edges {
+			if isLoadOfField(e, throttlePkg, "bucketsMeta", "maxID") {
+				clamp = true
+			}
+		}
+	}
+	r.Ob(clamp, c.fnName(rb)+"|out-of-window-to-newest", rb.Pos(), "an event time outside the retained window is counted in the newest bucket (result is the event's bucket id or maxID)")
+}
+
+// ruleRuleKeysDistinct: every rule, and the default rule, has its own key prefix: configured rules are
+// numbered by their position and the default rule by the number of configured rules.
+func ruleRuleKeysDistinct(c *Ctx, r *Rule) {
+	nr := c.Func("plugin/action/throttle", "newRule")
+	if nr == nil {
+		r.Unresolved("throttle.newRule")
+		return
+	}
+	idx, cnt := 0, 0
+	for _, ci := range c.sitesOf(nr) {
+		args := ci.Common().Args
+		if len(args) < 3 {
+			continue
+		}
+		r.Inst(1)
+		a := args[len(args)-1]
+		kind := ""
+		// position in the loop over config.Rules: rangeindex φ + 1
+		if bo, ok := a.(*ssa.BinOp); ok && bo.Op == token.ADD {
+			if p, isPhi := bo.X.(*ssa.Phi); isPhi {
+				if k, isK := constInt(bo.Y); isK && k == 1 {
+					okPhi := false
+					for _, e := range p.Edges {
+						if kk, isKK := constInt(e); isKK && kk == -1 {
+							okPhi = true
+						}
+					}
+					if okPhi {
+						kind = "index"
+					}
+				}
+			}
+		}
+		if kind == "" {
+			f := lin(a)
+			if f.k == 0 && len(f.t) == 1 {
+				for key, n := range f.t {
+					if key.isLen && n == 1 && isLoadOfField(key.v, throttlePkg, "Config", "Rules") {
+						kind = "count"
+					}
+				}
+			}
+		}
+		switch kind {
+		case "index":
+			idx++
+		case "count":
+			cnt++
+		}
+		r.Ob(kind != "", fmt.Sprintf("%s|newRule#%d|own-number", c.fnName(ci.Parent()), idx+cnt), ci.Pos(), "a rule's key prefix is its position among the configured rules, the default rule's is their count (so no two rules can share limiters): "+c.path(a))
+	}
+	r.Ob(idx >= 1 && cnt == 1, "plugin/action/throttle|rule-numbering", nr.Pos(), fmt.Sprintf("configured rules numbered by position (%d site) and exactly one default rule numbered by their count (%d)", idx, cnt))
 }
